@@ -258,7 +258,7 @@ fn main() {
     let mut interner = Interner { m: HashMap::new() };
     let w = build_world(&scratch.path, seed, &mut interner);
     let intern = std::sync::Mutex::new(interner);
-    let runs = if thorough() { 12 } else { 2 };
+    let runs = if thorough() { 6 } else { 2 };
     #[cfg(have_verif_yield)]
     {
         HOOK_SEED.store(seed.wrapping_mul(0x2545_F491_4F6C_DD1D) | 1, Ordering::Relaxed);
